@@ -244,8 +244,49 @@ pub fn c13(c: &Case, rep: &mut Report) {
         let keep = if label == "gc" { Some(reach(&din, &ExtraRoots::default()).keep) } else { None };
         let r = iso::compare(&din, &dout, keep.as_ref());
         if r.problems.iter().any(|p| !p.sig.ends_with("-added") && !(label == "addimp" && p.sig == "import-name-or-order-differs")) {
-            // structure itself is off: C03/C04/C06 report that; names cannot be judged against a broken bijection
-            rep.inconclusive(c, "bijection-unavailable(reported by C03/C04/C06)");
+            // structure itself is off: C03/C04/C06 report that; names cannot be judged against a broken bijection.
+            // What can still be judged: segments are identified by their content where that content is unique on
+            // both sides (data bytes; element kind and items, functions mapped through the function pairing, which
+            // is established before segments are compared) - the name must have travelled with the content
+            let mut moved = 0;
+            {
+                let ekey = |e: &decode::DElem, map_funcs: bool| -> Option<String> {
+                    let mut k = match e.mode { decode::DElemMode::Passive => "p", decode::DElemMode::Declared => "d", decode::DElemMode::Active { .. } => "a" }.to_string();
+                    for it in &e.items {
+                        match it {
+                            decode::DConst::RefFunc(f) => k.push_str(&format!(" f{}", if map_funcs { r.funcs.get(*f)? } else { *f })),
+                            decode::DConst::GlobalGet(_) => return None,
+                            other => k.push_str(&format!(" {:?}", other)),
+                        }
+                    }
+                    Some(k)
+                };
+                let ein: Vec<Option<String>> = din.elems.iter().map(|e| ekey(e, true)).collect();
+                let eout: Vec<Option<String>> = dout.elems.iter().map(|e| ekey(e, false)).collect();
+                let dkey = |d: &decode::DData| Some(format!("{} {:?}", matches!(d.mode, decode::DDataMode::Passive), d.bytes));
+                let din_k: Vec<Option<String>> = din.datas.iter().map(dkey).collect();
+                let dout_k: Vec<Option<String>> = dout.datas.iter().map(dkey).collect();
+                for (kind, keys_in, keys_out, a, b) in [("element", &ein, &eout, &nin.elems, &nout.elems), ("data", &din_k, &dout_k, &nin.datas, &nout.datas)] {
+                    for (i, n) in a.iter() {
+                        let k = match keys_in.get(*i as usize) { Some(Some(k)) => k, _ => continue };
+                        if keys_in.iter().filter(|x| x.as_ref() == Some(k)).count() != 1 {
+                            continue;
+                        }
+                        let js: Vec<usize> = keys_out.iter().enumerate().filter(|(_, x)| x.as_ref() == Some(k)).map(|(j, _)| j).collect();
+                        if js.len() != 1 {
+                            continue;
+                        }
+                        let got = b.iter().find(|(j, _)| *j as usize == js[0]).map(|(_, m)| m);
+                        if got != Some(n) {
+                            moved += 1;
+                            rep.violation(c, &format!("C13/{}-name-left-its-segment", kind), &format!("{}: {} segment in#{} named {:?} is the only one with its content; the only output segment with that content, out#{}, is named {:?}", label, kind, i, n, js[0], got), &[("out.wasm", out)]);
+                        }
+                    }
+                }
+            }
+            if moved == 0 {
+                rep.inconclusive(c, "bijection-unavailable(reported by C03/C04/C06)");
+            }
             continue;
         }
         let blob = [("out.wasm", &out[..])];
